@@ -9,5 +9,21 @@ if "@@SEEDTABLE@@" in s:
     s = s.replace("@@SEEDTABLE@@", block)
 else:
     s = re.sub(r"<!-- seedtable:begin -->.*?<!-- seedtable:end -->", lambda m: block, s, flags=re.S)
+# per-property coverage table from MANIFEST + evidence
+import json, os
+man = json.load(open("/verif/MANIFEST.json"))
+rows = ["| property | functions under contract | obligations (headline) | quick check wall time | trusted axioms / assumed library contracts used |", "|---|---|---|---|---|"]
+for c in man["checks"]:
+    pid = c["property_id"]
+    f = "/verif/evidence/%s.json" % pid
+    if not os.path.exists(f):
+        continue
+    ev = json.load(open(f)); cov = ev["coverage"]
+    tb = [t for t in cov.get("trusted_base", []) if t.startswith("TRUSTED AXIOM") or t.startswith("assumed contract of")]
+    short = sorted(set(t.replace("assumed contract of ", "").replace("TRUSTED AXIOM (contract assumed, never verified): ", "axiom ").split(" (")[0] for t in tb))
+    rows.append("| %s | %d | %d (%d) | %.0f s | %s |" % (pid, len(cov["functions_under_contract"]), cov["obligations"], cov["headline_obligations"], ev["wall_s"], ", ".join(short)[:400]))
+block2 = "<!-- covtable:begin -->\n" + "\n".join(rows) + "\n<!-- covtable:end -->"
+if "<!-- covtable:begin -->" in s:
+    s = re.sub(r"<!-- covtable:begin -->.*?<!-- covtable:end -->", lambda m: block2, s, flags=re.S)
 open(p, "w").write(s)
-print("DESIGN.md seed table refreshed")
+print("DESIGN.md tables refreshed")
